@@ -77,3 +77,90 @@ pub fn c12_gap(args: &[String], _seed: u64) -> Vec<String> {
     }
     out
 }
+
+// ---------------------------------------------------------------------------------------------------------
+// C11.accept / C12.status.record: reference for handle_telegram, exhaustive over a small alphabet
+fn ht_case(ps: u8, npv: Option<u8>, cc: u8, sr: Option<u8>, kind: u8, sa: u8, da: u8, is_last: bool) -> Result<(), String> {
+    let ts = 7u8;
+    let mut p = crate::fdl::Parameters::default();
+    p.address = ts;
+    let mut fdl = FdlActiveStation::new(p);
+    fdl.connectivity_state = ConnectivityState::Online;
+    fdl.token_ring.claim_token();
+    if ps != ts { fdl.token_ring.witness_token_pass(ps, ts); }
+    if fdl.token_ring.previous_station() != ps { return Ok(()); }
+    fdl.state = State::ActiveIdle { status_request: sr, new_previous_station: npv, collision_count: cc };
+    let now = crate::time::Instant::from_micros(123456);
+    let pdu = [0u8; 0];
+    let t = match kind {
+        0 => crate::fdl::Telegram::Token(crate::fdl::TokenTelegram::new(da, sa)),
+        1 => crate::fdl::Telegram::ShortConfirmation(crate::fdl::ShortConfirmation),
+        k => crate::fdl::Telegram::Data(crate::fdl::DataTelegram { h: crate::fdl::DataTelegramHeader { da, sa, dsap: None, ssap: None,
+                fc: if k == 2 { crate::fdl::FunctionCode::Request { fcb: crate::fdl::FrameCountBit::Inactive, req: crate::fdl::RequestType::FdlStatus } }
+                    else { crate::fdl::FunctionCode::Response { state: crate::fdl::ResponseState::Slave, status: crate::fdl::ResponseStatus::Ok } } }, pdu: &pdu }),
+    };
+    let _ = fdl.handle_telegram(now, t, is_last);
+    let want = if kind == 0 {
+        if sa == ts { if cc == 0 { State::ActiveIdle { status_request: sr, new_previous_station: npv, collision_count: 1 } } else { State::ListenToken { status_request: None, collision_count: 0 } } }
+        else if da != ts || !is_last { State::ActiveIdle { status_request: sr, new_previous_station: npv, collision_count: 0 } }
+        else if sa == ps || npv == Some(sa) { State::UseToken { data: UseTokenData::with_token_time(now), first_cycle_done: false } }
+        else { State::ActiveIdle { status_request: sr, new_previous_station: Some(sa), collision_count: 0 } }
+    } else if kind == 2 && da == ts && is_last { State::ActiveIdle { status_request: Some(sa), new_previous_station: npv, collision_count: cc } }
+    else { State::ActiveIdle { status_request: sr, new_previous_station: npv, collision_count: cc } };
+    if fdl.state != want { return Err(format!("state after handle_telegram is {:?}, token acceptance rule says {:?}", fdl.state, want)); }
+    Ok(())
+}
+
+/// args = [ps npv(-1 none) cc sr(-1) kind sa da is_last] replays; none = enumeration
+pub fn c11_accept(args: &[String], _seed: u64) -> Vec<String> {
+    std::panic::set_hook(Box::new(|_| {}));
+    let opt = |v: i64| if v < 0 { None } else { Some(v as u8) };
+    let run = |ps: u8, npv: Option<u8>, cc: u8, sr: Option<u8>, kind: u8, sa: u8, da: u8, l: bool| match std::panic::catch_unwind(move || ht_case(ps, npv, cc, sr, kind, sa, da, l)) { Ok(r) => r, Err(_) => Err("panic".into()) };
+    if args.len() == 8 {
+        let v: Vec<i64> = args.iter().map(|s| s.parse().unwrap()).collect();
+        let r = run(v[0] as u8, opt(v[1]), v[2] as u8, opt(v[3]), v[4] as u8, v[5] as u8, v[6] as u8, v[7] != 0);
+        return vec![format!("{{\"oracle\":\"c11_accept\",\"status\":\"{}\",\"input\":[{}],\"observed\":\"{}\"}}", if r.is_ok() { "pass" } else { "fail" }, v.iter().map(|x| x.to_string()).collect::<Vec<_>>().join(","), r.err().unwrap_or_default().replace('"', "'"))];
+    }
+    let addrs = [7u8, 3, 15, 42, 50, 125, 126, 127];
+    let mut n = 0u64;
+    for ps in [3u8, 15, 7] { for npv in [None, Some(42u8), Some(50), Some(3)] { for cc in [0u8, 1] { for sr in [None, Some(9u8)] {
+        for kind in 0u8..4 { for sa in addrs { for da in addrs { for l in [false, true] {
+            n += 1;
+            if let Err(e) = run(ps, npv, cc, sr, kind, sa, da, l) {
+                return vec![format!("{{\"oracle\":\"c11_accept\",\"status\":\"fail\",\"input\":[{ps},{},{cc},{},{kind},{sa},{da},{}],\"observed\":\"{}\",\"evaluations\":{n}}}",
+                    npv.map(|x| x as i64).unwrap_or(-1), sr.map(|x| x as i64).unwrap_or(-1), l as u8, e.replace('"', "'"))];
+            }
+        } } } }
+    } } } }
+    vec![format!("{{\"oracle\":\"c11_accept\",\"status\":\"pass\",\"evaluations\":{n}}}")]
+}
+
+/// C15.sched: round-robin index arithmetic of schedule_next_application, exhaustive for n <= 6
+pub fn c15_sched(args: &[String], _seed: u64) -> Vec<String> {
+    std::panic::set_hook(Box::new(|_| {}));
+    let case = |n: usize, next: usize, first: Option<usize>| -> Result<(), String> {
+        let mut fdl = FdlActiveStation::new(crate::fdl::Parameters::default());
+        fdl.state = State::UseToken { data: UseTokenData { token_time: crate::time::Instant::ZERO, first_app: first }, first_cycle_done: false };
+        fdl.next_application = next;
+        let r = fdl.schedule_next_application(n);
+        let wf = first.unwrap_or(next);
+        let wn = (next + 1) % n;
+        let got_first = match &fdl.state { State::UseToken { data, .. } => data.first_app, _ => None };
+        if fdl.next_application != wn || got_first != Some(wf) || (r == ScheduleNext::CycleCompleted) != (wn == wf) {
+            return Err(format!("n={n} next={next} first={first:?}: next'={} first'={got_first:?} result={r:?}", fdl.next_application));
+        }
+        Ok(())
+    };
+    if args.len() == 3 {
+        let v: Vec<i64> = args.iter().map(|s| s.parse().unwrap()).collect();
+        let r = match std::panic::catch_unwind(|| case(v[0] as usize, v[1] as usize, if v[2] < 0 { None } else { Some(v[2] as usize) })) { Ok(r) => r, Err(_) => Err("panic".into()) };
+        return vec![format!("{{\"oracle\":\"c15_sched\",\"status\":\"{}\",\"input\":[{},{},{}],\"observed\":\"{}\"}}", if r.is_ok() { "pass" } else { "fail" }, v[0], v[1], v[2], r.err().unwrap_or_default().replace('"', "'"))];
+    }
+    let mut cnt = 0u64;
+    for n in 1usize..=6 { for next in 0..n { for first in std::iter::once(None).chain((0..n).map(Some)) {
+        cnt += 1;
+        let r = match std::panic::catch_unwind(|| case(n, next, first)) { Ok(r) => r, Err(_) => Err("panic".into()) };
+        if let Err(e) = r { return vec![format!("{{\"oracle\":\"c15_sched\",\"status\":\"fail\",\"input\":[{n},{next},{}],\"observed\":\"{}\",\"evaluations\":{cnt}}}", first.map(|x| x as i64).unwrap_or(-1), e.replace('"', "'"))]; }
+    } } }
+    vec![format!("{{\"oracle\":\"c15_sched\",\"status\":\"pass\",\"evaluations\":{cnt}}}")]
+}
